@@ -289,6 +289,84 @@ def file_gate(out, mc):
     return []
 
 
+def config_plumbing(out, mc):
+    """M-C20-d: LuaDiagnosticConfig::new carries diagnostics.disable / enables / severity over unfiltered"""
+    fns = mc.fns("emmylua_code_analysis", r"lua_diagnostic_config::<impl[^>]*>::new\(")
+    if len(fns) != 1:
+        raise RuntimeError("LuaDiagnosticConfig::new: %d candidates" % len(fns))
+    fn = fns[0]
+    rc = srcinfo.struct_fields("/repo/crates/emmylua_code_analysis/src/config/mod.rs", "Emmyrc")
+    df = srcinfo.struct_fields("/repo/crates/emmylua_code_analysis/src/config/configs/diagnostics.rs", "EmmyrcDiagnostic")
+    i_diag = rc.index("diagnostics")
+    ex = symex.Executor(fns, max_visits=3)
+    t0 = time.time()
+    paths = ex.run(fn)
+    sym_s = time.time() - t0
+    out.extra_cov.setdefault("symbolic_execution", []).append(
+        {"function": fn.name, "blocks": len(fn.blocks), "paths": len(paths), "seconds": round(sym_s, 2), **ex.stats})
+    rets = [p for p in paths if p.kind == "return"]
+    ob = out.add(Obligation("config/sets_and_severity_carried_over_unfiltered", "M",
+                            "LuaDiagnosticConfig::new: workspace_disabled / workspace_enabled are collected from diagnostics.disable / enables through "
+                            "iter-clone-collect only, and every (code, severity) entry the configuration iterator yields is inserted into the severity map "
+                            "unconditionally with that code and that severity",
+                            {"function": "LuaDiagnosticConfig::new", "paths": len(rets), "loop": "severity entries <= 2 (loop unrolled, longer maps cut)"},
+                            [fn.name]))
+    fails = []
+    benign = {"iter", "cloned", "copied", "collect", "into_iter"}
+    norm = lambda t: t
+    src_key = lambda name: symex.kfmt((((("arg", 1), "*"), i_diag), df.index(name)))
+    seen_iters = set()
+    for p in rets:
+        r = p.ret
+        if not isinstance(r, symex.Agg) or not r.names:
+            fails.append("result is not a LuaDiagnosticConfig aggregate")
+            continue
+        fld = dict(zip(r.names, r.fields))
+        for field, src in (("workspace_disabled", "disable"), ("workspace_enabled", "enables")):
+            k = norm(ex.deep_key(p.state, fld[field]))
+            callees = [c.split("::")[-1] for c in re.findall(r"\(call,([^,]*),", k)]
+            if src_key(src) not in k:
+                fails.append("%s is not built from diagnostics.%s" % (field, src))
+            other = [df[j] for j in range(len(df)) if df[j] != src and symex.kfmt((((("arg", 1), "*"), i_diag), j)) in k]
+            if other:
+                fails.append("%s also depends on diagnostics.%s" % (field, ",".join(other)))
+            extra = [c for c in callees if c not in benign]
+            if extra:
+                fails.append("%s is built through %s (filtering/transforming adapter)" % (field, ",".join(extra)))
+        nexts = [e for e in p.trace if re.search(r"::next$", e.get("short", "")) and "hash_map" in e["callee"]]
+        somes = []
+        for e in nexts:
+            d = ex.discriminant(p.state, e["result"])
+            res, _ = mc.check(list(p.pc) + [d.term != z3.BitVecVal(1, 64)], "next")
+            if res == "unsat":
+                somes.append(e)
+        inserts = [e for e in p.trace if re.search(r"HashMap::insert$", e.get("short", ""))]
+        seen_iters.add(len(somes))
+        if len(inserts) != len(somes):
+            fails.append("%d severity entries yielded but %d inserted" % (len(somes), len(inserts)))
+            continue
+        for e, ins in zip(somes, inserts):
+            pay = symex.LazyPayload(ex, p.state, e["result"], "Some")[0]
+            kk = ex.deep_key(p.state, ex.deref(p.state, ex.child(p.state, pay, ("field", 0, "&DiagnosticCode"))))
+            vv = ex.deep_key(p.state, ex.deref(p.state, ex.child(p.state, pay, ("field", 1, "&DiagnosticSeveritySetting"))))
+            if ins["akeys"][1] != kk:
+                fails.append("severity inserted under a different code than the entry's")
+            if vv not in ins["akeys"][2]:
+                fails.append("inserted severity does not come from the entry's value")
+        sev = ex.deep_key(p.state, fld["severity"])
+        if inserts and "havoc" not in sev and "HashMap::new" not in sev:
+            fails.append("result.severity is not the map the entries were inserted into")
+    ob.witness = max(seen_iters or [0]) >= 1
+    if not rets:
+        fails.append("no returning path")
+    if fails:
+        ob.status = "pending"
+        ob.detail = "; ".join(sorted(set(fails)))
+        return [(ob, fails)]
+    ob.status = "pass"
+    return []
+
+
 # ---------------------------------------------------------------------------------------------
 # native replay
 
@@ -364,6 +442,11 @@ BATTERY = [
                                "files": [{"name": "t.lua", "text": "---@diagnostic enable: undefined-global\nprint(zzz_undefined_name)\n"}]},
      lambda r: not any(d["code"] == "undefined-global" and d["severity"] == "Hint" for d in r.get("diagnostics", [])),
      "severity override applies to a code re-enabled by the file"),
+    ("enables_off_by_default_code", {"kind": "diagnose", "target": "t.lua",
+                                     "emmyrc": {"diagnostics": {"enables": ["unknown-doc-tag"]}},
+                                     "files": [{"name": "t.lua", "text": "---@foobar\nlocal _x = 1\n"}]},
+     lambda r: not any(d["code"] == "unknown-doc-tag" for d in r.get("diagnostics", [])),
+     "a code in diagnostics.enables is reported even though it is off by default"),
     ("disabled_code_not_reported", {"kind": "diagnose", "target": "t.lua",
                                     "emmyrc": {"diagnostics": {"disable": ["undefined-global"]}},
                                     "files": [{"name": "t.lua", "text": "print(zzz_undefined_name)\nlocal x = 1\n"}]},
@@ -408,11 +491,11 @@ def replay_battery(out, ob, fails, role):
 def run(out):
     mc = mflow.MContext(out)
     out.functions = ["DiagnosticContext::is_checker_enable_by_code", "DiagnosticContext::add_diagnostic",
-                     "DiagnosticContext::get_severity", "LuaDiagnostic::diagnose_file"]
+                     "DiagnosticContext::get_severity", "LuaDiagnostic::diagnose_file", "LuaDiagnosticConfig::new"]
     out.bounds = {"paths": "all paths of the listed functions (loop-free)", "observations": "every callee result free (all valuations)"}
     out.outside = ["globals / globalsRegex (regex engine, interned strings)",
                    "whether every checker routes its reports through add_diagnostic",
-                   "how configuration files become LuaDiagnosticConfig sets (LuaDiagnosticConfig::new)",
+                   "JSON/Lua configuration loading in front of Emmyrc (C31/C32)", "severity maps with more than 2 entries (loop bound)",
                    "how the meta flag of a file is computed by the analyzer"]
     out.assumptions = [
         "callee contracts: DiagnosticIndex::is_file_enabled/is_file_disabled, LuaModuleIndex::is_meta_file, HashSet::contains, "
@@ -424,6 +507,7 @@ def run(out):
         viol = precedence(out, mc)
         g = gating(out, mc)
         fg = file_gate(out, mc)
+        cp = config_plumbing(out, mc)
     except (symex.Unsupported, RuntimeError, KeyError, ValueError) as e:
         out.fatal = "engine M could not encode the current source: %r" % (e,)
         mc.finish()
@@ -434,6 +518,8 @@ def run(out):
         replay_battery(out, ob, fails, "gating")
     for ob, fails in fg:
         replay_battery(out, ob, fails, "file_gate")
+    for ob, fails in cp:
+        replay_battery(out, ob, fails, "config")
     for ob in out.obligations:
         ob.solver_s = ob.solver_s or 0.0
     out.extra_cov["translator_validation"] = "see DESIGN.md §1.2(6); concrete-mode runs recorded by tools/validate_m.py"
